@@ -20,5 +20,14 @@ def obligations(tier):
            "three directory entries, each any of 7 catalogued names (symbolic indices; with / without / double extensions); path is a file or a directory (symbolic)"),
         Ob("C19.dump/dump_data_to_file", "misc", "c_dump_file", {}, t, ["simple_ddl_parser/output/core.py:dump_data_to_file (open replaced by a recording fake)"],
            "data a flat list / a grouped dict / one table dict x 3 base names (symbolic)"),
+    ] + [
+        Ob(f"C19.cli/fs/{'dir' if d else 'file'}/{'no-dump' if nd else 'dump'}", "misc", "c_cli_fs", {"VF_CLI_DIR": d, "VF_CLI_NODUMP": nd}, max(t, 300),
+           ["simple_ddl_parser/cli.py:main, cli, run_for_file, correct_extension", "simple_ddl_parser/ddl_parser.py:parse_from_file", "simple_ddl_parser/parser.py:Parser.run (dump branch)",
+            "simple_ddl_parser/output/core.py:dump_data_to_file", "the whole parsing pipeline on one catalogued HQL-flavoured table"],
+           "real cli.main on a fresh temporary tree (execution mode: native, the solver chooses the case): input name any of 4 (lower / mixed case, digits, underscore), "
+           "-o any of sql / hql / mysql, an optional second invocation on the same target with any of the three modes, -t given or defaulted to ./schemas (all symbolic); "
+           f"{'directory with two DDL files and one .txt' if d else 'single file'}, {'--no-dump: nothing may be created anywhere' if nd else 'dump: exactly <base>_schema.json per DDL file, content = API result of the last mode'}")
+        for d in (0, 1) for nd in (0, 1)
+    ] + [
         Ob("C19.cli/run_for_file", "misc", "c_cli", {}, t, FN, "path, target (<= 3 chars), --no-dump, -v, -o mode: symbolic", api=False),
     ]
